@@ -8,6 +8,9 @@ from vf.ref.ecref import SECP256K1 as S, ecdsa_verify
 from vf.runner import Acc, filler
 
 PROPERTY = "C02"
+# E6: seq_ops() indices of the operations that are interrupted at every line (vf/seqexplore.interrupted); probes = the whole alphabet
+INTERRUPT_X = [0, 12]
+INTERRUPT_PROBES = None
 CONCUR_FILES = ('bits/utils.py', 'bits/ecmath.py', 'bits/pem.py')
 # (thread a, thread b), warm-up: indices into seq_ops() - the ordinary single-case checks run concurrently (vf/concur.py)
 CONCUR_SCEN = [((0, 4), (8,)), ((0, 0), (4,)), ((2, 3), (0,)), ((0, 8), (), (14, 15, 0, 8)), ((0, 8), (4,), (14, 15, 0, 8)), ((0, 4, 8), ())]   # the last two: two keys parsed concurrently for the first time, then sequential follow-up calls
@@ -25,6 +28,7 @@ ASSUMPTIONS = ["E2 small-curve retargeting (see C03)", "reference predicate vf/r
 OBLIGATIONS = {
     "concurrent_calls": "interleavings of two concurrent calls (single-case checks in two threads, cold and after warm-up calls)",
     "long_history": "operations executed in one long history (every key of a 199-element group, forward / forward / reverse)",
+    "interrupted_calls": "interruption points explored (an earlier call cut short by an asynchronous exception, then ordinary calls)",
     "history_sequences": "operation sequences (non-initial process states) explored",
     "concurrent_first_calls": "interleavings of two concurrent first sig_verify calls explored",
     "infinity_tuple": "a tuple with u1*G + u2*P = infinity was offered",
@@ -186,6 +190,9 @@ def run_case(kind, case):
     if kind == "concurcase":
         from vf import concur
         return concur.replay_cases(run_case, PROPERTY, case, CONCUR_FILES)
+    if kind == "interrupted":
+        from vf import seqexplore
+        return seqexplore.replay_interrupted(run_case, case)
     if kind == "seq":
         from vf import seqexplore
         return seqexplore.replay(run_case, case)
@@ -293,6 +300,8 @@ def jobs(tier, seed):
     js += seq_jobs(4, curve=t43, weight=4)
     from vf.runner import long_jobs
     js += long_jobs(curve=list(smallcurve.TABLE[5]))
+    from vf.runner import interrupt_jobs
+    js += interrupt_jobs(len(INTERRUPT_X), curve=t43)
     from vf.runner import concur_jobs
     js += concur_jobs(len(CONCUR_SCEN) - (1 if tier == "quick" else 0), curve=t43)
     for i in range(2):
@@ -327,6 +336,11 @@ def run_job(job):
     if job["part"] == "longhist":
         from vf.runner import run_long_job
         return run_long_job(job, long_ops(job), run_case)
+    if job["part"] == "interrupted":
+        from vf.runner import run_interrupt_job
+        ops = [o for o in seq_ops(dict(job, part="interrupted", shard=[0, 1]))]
+        probes = ops if INTERRUPT_PROBES is None else [ops[i] for i in INTERRUPT_PROBES]
+        return run_interrupt_job(job, [ops[i] for i in INTERRUPT_X], probes, run_case, CONCUR_FILES)
     if job["part"] == "seq":
         from vf.runner import run_seq_job
         return run_seq_job(job, seq_ops(job), run_case)
